@@ -155,9 +155,10 @@ const DIRPATHS: [&str; 5] = ["d1/d2/x", "sqpack/ex2/y", "d0/z", "movie/ex1/m", "
 /// `c03fs::escape_path`): blanks in front of the first component, behind the file name, inside;
 /// other white space; punctuation; control characters.  A small pool, so that commands meet files
 /// of the start tree and of earlier commands.  No entry is a directory of another one or of `FILES`.
-const ODD_FILES: [&str; 20] = [
+const ODD_FILES: [&str; 23] = [
     " f0", "f0 ", "f 0", " ", "d0/ f1 ", " d/f0", "d /f0", "d0/d 1/f2", "sqpack/ffxiv/x .bin", "movie/ffxiv/ f3.bk2",
     "sqpack/ex1/ex1.ver ", "a+b=c,(d)'!@#$%&[]", "d0/f\t", "f\n", "\rf", "d0/.f", "d~/^{f};:`", "f%20", "d0/f\\g*?\"<>|", "\x01/\x7f",
+    "f..", "d0/f..old.log", "d../..f",
 ];
 const ODD_DIRPATHS: [&str; 8] = ["d1/ d2/x ", " q", "q ", "d 1/d+2", "sqpack/ex2 /y", "m\t/n\n", "(a)/[b]/{c}", "%/%25"];
 
